@@ -116,8 +116,10 @@ def run(ctx):
         rep.check(bool(hit), 'R-C02-3', 'R-C02-3/' + name, ok + (' (line %d)' % hit[0]['guard'].line if hit else ''), bad, ctx.where(v, hit[0]['guard'].bb) if hit else ctx.where(v))
         return hit
     wbb = ws[0][3][0][1] if len(ws) == 1 else gbb
-    find(lambda a: a[0] == 'cmp' and a[1] == 'Eq' and 'len(li_' in a[2] + a[3] and 'len(ri_' in a[2] + a[3] or (a[0] == 'cmp' and a[1] == 'Eq' and '.li' in a[2] + a[3] and '.ri' in a[2] + a[3] and 'len(' in a[2] and 'len(' in a[3]),
-         'len-L-eq-len-R', 'every proof is refused unless len(L) == len(R)', 'no per-proof guard compares len(L) with len(R)')
+    from . import msm_pairs
+    lr = [r for (r, fa, fb) in msm_pairs.len_eq_guards(ctx, v) if {next(iter(fa)) if len(fa) == 1 else None, next(iter(fb)) if len(fb) == 1 else None} == {'len(each(p3).li)', 'len(each(p3).ri)'} and per_proof(r)]
+    rep.check(bool(lr), 'R-C02-3', 'R-C02-3/len-L-eq-len-R', 'every proof is refused unless len(L) == len(R)' + (' (line %d)' % lr[0]['guard'].line if lr else ''),
+              'no per-proof guard compares len(L) with len(R)', ctx.where(v, lr[0]['guard'].bb) if lr else ctx.where(v))
     find(lambda a: a[0] == 'succ' and a[1].startswith('try_from(len('), 'rounds-fit-u32', 'the round count must fit u32', 'no guard converts the round count with a checked conversion')
     find(lambda a: a[0] == 'cmp' and 'leading_zeros(' in a[2] + a[3], 'rounds-top-bit', 'a round count with the top bit set is refused', 'no guard on the leading zeros of the round count')
     find(lambda a: a[0] == 'succ' and a[1].startswith('checked_shl(1,'), 'shift-checked', '1 << rounds is computed with checked_shl', 'the shift 1 << rounds is not checked')
@@ -126,7 +128,19 @@ def run(ctx):
     if h:
         a = h[0]['atoms'][0]
         sh = a[2] if a[2].startswith('checked_shl') else a[3]
-        rep.check('len(li_' in sh or '.li' in sh, 'R-C02-3', 'R-C02-3/rounds-are-len-L', 'the round count is len(L)', 'the shifted count is %s' % sh, ctx.where(v, h[0]['guard'].bb))
+        gc = h[0]['guard'].cond
+        shl = [x for x in walk(gc) if x.tag == 'call' and x[1].endswith('checked_shl')]
+        is_len_l = False
+        if shl:
+            amt = shl[0][2][1]
+            while amt.tag == 'cast' or (amt.tag == 'call' and amt[1].endswith('try_from') and len(amt[2]) == 1):
+                amt = amt[2] if amt.tag == 'cast' else amt[2][0]
+            if amt.tag == 'call' and amt[1] in msm_pairs.LEN_CALLS:
+                try:
+                    is_len_l = msm_pairs.lenform(ctx, amt[2][0]) <= {'len(each(p3).li)', 'len(each(p3).ri)'}
+                except msm_pairs.Unknown:
+                    is_len_l = False
+        rep.check(is_len_l, 'R-C02-3', 'R-C02-3/rounds-are-len-L', 'the round count is len(L)', 'the shifted count is %s' % sh, ctx.where(v, h[0]['guard'].bb))
 
     # ---- R-C02-4 challenges
     cb = ctx.facts.callers_decl.get('merlin::Transcript::challenge_bytes', [])
